@@ -327,7 +327,10 @@ C06_SIZES = {"IPv6HopByHop": {"quick": 8, "thorough": 16}, "IPv6Destination": {"
 C06_PAYLOAD_INSIDE = {"RADIUS"}
 # ARP: the two address sizes position every later field; they are enumerated
 # (0..3 each) instead of symbolic, everything else stays symbolic
-C07_PRELUDE = {"ARP": "\tin[4], in[5] = byte(verifChoose(4)), byte(verifChoose(4))\n"}
+C07_PRELUDE = {"ARP": "\tin[4], in[5] = byte(verifChoose(4)), byte(verifChoose(4))\n",
+               # DHCPv6: the length of the first option is enumerated 0..7 (7 and more
+               # does not fit the input bound and is rejected by the decoder)
+               "DHCPv6": "\tin[6], in[7] = 0, byte(verifChoose(8))\n"}
 C06_MIN = {"APSP": 40, "ASFPresencePong": 16, "BFD": 24, "DHCPv4": 240, "Diameter": 20, "EAPOLKey": 95,
            "ICMPv6NeighborAdvertisement": 20, "ICMPv6NeighborSolicitation": 20, "ICMPv6Redirect": 36, "IPv4": 20, "IPv6": 40,
            "MDP": 28, "MLDv1Message": 20, "MLDv1MulticastListenerDoneMessage": 20, "MLDv1MulticastListenerQueryMessage": 20,
@@ -495,7 +498,7 @@ PROPS = {
         "pkgs": [MOD + "/layers"],
         "generate": gen_c07,
         "must_reach_all": ["decoded"],
-        "bounds": "every claimed type with both DecodeFromBytes and SerializeTo: layer decoded from n symbolic bytes (same length ranges as C06), FixLengths on/off (ComputeChecksums on/off as well in thorough); serialized into a fresh buffer, a buffer that held 64 symbolic garbage bytes and was cleared, and a pre-sized buffer (hints 0..2); outputs compared bytewise; ARP: the two address-size octets are enumerated 0..3 instead of symbolic; every unit must reach a successful decode",
+        "bounds": "every claimed type with both DecodeFromBytes and SerializeTo: layer decoded from n symbolic bytes (same length ranges as C06), FixLengths on/off (ComputeChecksums on/off as well in thorough); serialized into a fresh buffer, a buffer that held 64 symbolic garbage bytes and was cleared, and a pre-sized buffer (hints 0..2); outputs compared bytewise; ARP: the two address-size octets are enumerated 0..3 instead of symbolic; DHCPv6: the length of the first option is enumerated 0..7; every unit must reach a successful decode",
         "outside": "layer values built through public fields without decoding; layer type DNS (does not decode within the budgets) is not claimed",
         "quick": {"timeout": 500, "qtimeout": 20000, "fbtimeout": 60000, "maxpaths": 200, "partial_ok_all": True, "unsupported_ok": True},
         "thorough": {"timeout": 5000, "maxpaths": 3000, "partial_ok_all": True, "unsupported_ok": True},
